@@ -114,6 +114,10 @@ def statements_untouched(ck, m):
                     if d.split('::')[-1] in ('filter', 'retain', 'retain_mut', 'skip_while', 'take_while') and _only_drops_blanks(P, cb, c):
                         continue      # dropping blank statements changes no entry: the loop pushes nothing for a blank one
                     bad.append('%s (%s)' % (d, cb.loc(c)))
+            for c in splits:
+                pats = [core.const_val(r) if r[0] == 'const' else None for a2 in cb.term(c)['args'][1:2] for r in origins(cb, a2)]
+                if not pats or any(p_ not in (';', 59) for p_ in pats):
+                    bad.append('the body is split at %s, not at `;` alone (%s): a value that contains the other separator is cut into statements' % (pats or 'a computed pattern', cb.loc(c)))
             if not splits:
                 bad.append('the list handed to the loop does not come from a split of the body (%s)' % cb.loc(cbi))
     ck.ob('C20.h', short(hb.id), 'statements-untouched', n > 0 and not bad,
@@ -127,6 +131,12 @@ def run(ck, m):
     _run(ck, m)
     channel_rule(ck, m)
     statements_untouched(ck, m)
+    from nl import alias as _alias20
+    from props import C09 as _C09
+    ck.rule('C20.i', 'a command that is refused changes nothing the later commands of the same body depend on (C09.c, repeated): the session selection '
+                     '(database, user) is replaced only on a path where the token check answered true — a refused use-db that clears the user turns the '
+                     'permission refusals of the following entries into values')
+    _alias20.repeat(ck, m, 'C09', ('C09.c',), 'C20.i', runner=_C09.writers, key_filter=lambda k: 'selection' in k)
     # the HTTP request is a whole session: its end must give the connection back (C17.a's session-end rules, repeated here)
     from nl import report
     from props import C17
